@@ -292,7 +292,10 @@ enum { MAGIC_ALIVE = 0x5A11FE01, MAGIC_DEAD = 0x0DEAD0DE };
 #define ELEM_NOTHROW_MOVE (ELEM_NOTHROW_MOVE_CTOR && ELEM_NOTHROW_MOVE_ASSIGN)
 #define ELEM_COPYABLE     (CFG_ELEM != 2 && CFG_ELEM != 3)
 #define ELEM_HAS_MOVE     (CFG_ELEM != 4)
-#define ELEM_TRACKED      (CFG_ELEM <= 4 || CFG_ELEM == 7 || CFG_ELEM == 8 || CFG_ELEM == 10)
+#define ELEM_TRACKED      (CFG_ELEM <= 4 || CFG_ELEM == 7 || CFG_ELEM == 8 || CFG_ELEM == 10 || CFG_ELEM == 12)
+// flavour NC (12): like NT, and copying cannot throw either (a reference-counted handle): whatever the library guards with
+// is_nothrow_copy_constructible / is_nothrow_constructible<T, const T&> is live only here
+#define ELEM_NOTHROW_COPY (CFG_ELEM == 12)
 #define ELEM_ADL_SWAP     (CFG_ELEM == 10)
 
 // A source value that elements can be CONSTRUCTED from (explicitly) but not ASSIGNED from: ranges of these take the
@@ -335,17 +338,21 @@ struct Tracked
   }
 
 #if ELEM_COPYABLE
-  Tracked (const Tracked &o) : v (o.v), mf (o.mf), magic (0)
+  Tracked (const Tracked &o) noexcept (ELEM_NOTHROW_COPY) : v (o.v), mf (o.mf), magic (0)
   {
+#if ! ELEM_NOTHROW_COPY
     g_inj.tick (FK_COPY);
+#endif
     magic = MAGIC_ALIVE;
     ++g_cnt_reloc;
     obj_event (1, this, 1, &o, o.magic != MAGIC_ALIVE);
   }
 
-  Tracked &operator= (const Tracked &o)
+  Tracked &operator= (const Tracked &o) noexcept (ELEM_NOTHROW_COPY)
   {
+#if ! ELEM_NOTHROW_COPY
     g_inj.tick (FK_CASSIGN);
+#endif
     obj_event (2, this, 1, &o, o.magic != MAGIC_ALIVE || magic != MAGIC_ALIVE);
     v = o.v; mf = o.mf;
     return *this;
@@ -427,7 +434,7 @@ inline bool operator<= (const Triv &a, const Triv &b) { return a.v <= b.v; }
 inline bool operator>  (const Triv &a, const Triv &b) { return a.v >  b.v; }
 inline bool operator>= (const Triv &a, const Triv &b) { return a.v >= b.v; }
 
-#if CFG_ELEM <= 4 || CFG_ELEM == 7 || CFG_ELEM == 8 || CFG_ELEM == 10
+#if ELEM_TRACKED
 typedef Tracked Elem;
 static inline int  val_of (const Elem &e) { return e.v; }
 static inline int  mf_of (const Elem &e) { return e.mf; }
@@ -474,9 +481,30 @@ static inline int  mf_of (const Elem &) { return 0; }
 static inline Elem make_elem (int v) { return v; }
 #endif
 
+// A value of another type for the non-member erase (v, value): converts implicitly to an element (losing `inexact`), and
+// compares with elements exactly -- `element == needle` is the comparison std::erase / std::remove are specified with.
+struct Needle
+{
+  int  v;
+  bool inexact;
+#if ELEM_TRACKED
+  operator Elem () const { return Elem (v); }
+#else
+  operator Elem () const { return make_elem (v); }
+#endif
+};
+#if CFG_ELEM == 9
+inline bool operator== (const Elem &e, const Needle &n) { return ! n.inexact && e == make_elem (n.v); }
+#else
+inline bool operator== (const Elem &e, const Needle &n) { return ! n.inexact && val_of (e) == n.v; }
+#endif
+inline bool operator== (const Needle &n, const Elem &e) { return e == n; }
+inline bool operator!= (const Elem &e, const Needle &n) { return ! (e == n); }
+inline bool operator!= (const Needle &n, const Elem &e) { return ! (e == n); }
+
 static const char *elem_name ()
 {
-  static const char *n[] = { "NT", "TM", "MO", "MOT", "CO", "TRIV", "INT", "MA", "MC", "FLT", "SW", "PM" };
+  static const char *n[] = { "NT", "TM", "MO", "MOT", "CO", "TRIV", "INT", "MA", "MC", "FLT", "SW", "PM", "NC" };
   return n[CFG_ELEM];
 }
 
@@ -1424,10 +1452,22 @@ static void op_unary (V &v, const Op &op, OpResult &res)
   else if (! std::strcmp (nm, "shrink"))      { ARM (); v.shrink_to_fit (); }
   else if (! std::strcmp (nm, "at"))
     {
+      // a1 (optional) selects an index far beyond any size: 1 = SIZE_MAX - a0, 2 = SIZE_MAX / 2 + 1 + a0 (the sign bit of the
+      // difference type), 3 = SIZE_MAX / 2 - a0.  Both overloads are called; "out_of_range" only when BOTH threw it.
+      const sz_t smax = static_cast<sz_t> (-1);
+      const long mode = op.na > 1 ? op.a[1] : 0;
+      const sz_t idx = mode == 1 ? static_cast<sz_t> (smax - static_cast<sz_t> (op.a[0]))
+                     : mode == 2 ? static_cast<sz_t> (smax / 2 + 1 + static_cast<sz_t> (op.a[0]))
+                     : mode == 3 ? static_cast<sz_t> (smax / 2 - static_cast<sz_t> (op.a[0]))
+                     : static_cast<sz_t> (op.a[0]);
       ARM ();
-      res.ret = val_of (v.at (static_cast<sz_t> (op.a[0])));
+      bool t1 = false, t2 = false;
+      long r1 = -1, r2 = -1;
+      try { r1 = val_of (v.at (idx)); } catch (const std::out_of_range &) { t1 = true; }
       const V &cv = v;
-      if (val_of (cv.at (static_cast<sz_t> (op.a[0]))) != res.ret) res.ret = -7;
+      try { r2 = val_of (cv.at (idx)); } catch (const std::out_of_range &) { t2 = true; }
+      if (t1 && t2) throw std::out_of_range ("at: both overloads");
+      res.ret = (t1 || t2 || r1 != r2) ? -7 : r1;
     }
   else if (! std::strcmp (nm, "push_n"))
     {
@@ -1727,9 +1767,21 @@ static void op_values (V &v, const Op &op, OpResult &res, Bool<true>)
 #if ! CFG_VECTOR
   else if (! std::strcmp (nm, "erase_val"))
     {
-      const Elem needle = make_elem (static_cast<int> (op.a[0]));     // harness-owned, outlives the logged call
-      ARM ();
-      res.ret = static_cast<long> (erase (v, needle));
+      if (op.na > 1 && op.a[1] != 0)
+        {
+          // a value of ANOTHER type: implicitly convertible to the element type, compared with elements by its own
+          // heterogeneous operator== (no temporaries).  a1 = 1: equal to the element value a0; a1 = 2: equal to no element
+          // at all, although it CONVERTS to the element value a0 (like 1.5 -> 1): nothing may be removed.
+          const Needle needle = { static_cast<int> (op.a[0]), op.a[1] == 2 };
+          ARM ();
+          res.ret = static_cast<long> (erase (v, needle));
+        }
+      else
+        {
+          const Elem needle = make_elem (static_cast<int> (op.a[0]));     // harness-owned, outlives the logged call
+          ARM ();
+          res.ret = static_cast<long> (erase (v, needle));
+        }
     }
   else if (! std::strcmp (nm, "erase_if"))
     {
@@ -2041,7 +2093,7 @@ static void print_cfg ()
            "{\"t\":\"cfg\",\"name\":\"%s\",\"na\":%d,\"nb\":%d,\"elem\":\"%s\",\"nothrowMove\":%s,\"copyable\":%s,\"hasMove\":%s,"
            "\"nothrowMoveCtor\":%s,\"nothrowMoveAssign\":%s,\"tracked\":%s,\"isStd\":%s,\"pocca\":%s,\"pocma\":%s,\"pocs\":%s,\"ae\":%s,\"construct\":%s,\"sizet\":%d,"
            "\"max\":%ld,\"allocMax\":%ld,\"diffMax\":%ld,\"soccc\":%d,\"std\":%ld,\"compiler\":\"%s\",\"concepts\":%d,\"vector\":%s,\"szA\":%zu,\"szB\":%zu,"
-           "\"flt\":%s,\"defval\":%d,\"adlswap\":%s}\n",
+           "\"flt\":%s,\"defval\":%d,\"adlswap\":%s,\"nothrowCopy\":%s}\n",
            CFG_NAME, CFG_NA, CFG_NB, elem_name (), ELEM_NOTHROW_MOVE ? "true" : "false", ELEM_COPYABLE ? "true" : "false",
            ELEM_HAS_MOVE ? "true" : "false", ELEM_NOTHROW_MOVE_CTOR ? "true" : "false", ELEM_NOTHROW_MOVE_ASSIGN ? "true" : "false",
            ELEM_TRACKED ? "true" : "false", CFG_ALLOC == 0 ? "true" : "false",
@@ -2050,7 +2102,7 @@ static void print_cfg ()
            clamp30 (std::allocator_traits<Alloc>::max_size (make_alloc (1))),
            clamp30 (static_cast<unsigned long long> ((std::numeric_limits<std::allocator_traits<Alloc>::difference_type>::max) ())), CFG_SOCCC,
            static_cast<long> (__cplusplus), comp, concepts, CFG_VECTOR ? "true" : "false", sizeof (VA), sizeof (VB),
-           CFG_ELEM == 9 ? "true" : "false", DEFVAL, ELEM_ADL_SWAP ? "true" : "false");
+           CFG_ELEM == 9 ? "true" : "false", DEFVAL, ELEM_ADL_SWAP ? "true" : "false", ELEM_NOTHROW_COPY ? "true" : "false");
 }
 
 int main (int argc, char **argv)
